@@ -100,7 +100,8 @@ CSet(aid, ok) ==
   /\ tgt' = IF ok THEN aid ELSE tgt
   /\ own' = IF ok THEN own ELSE -1
   /\ phase' = IF ok THEN "cseteval" ELSE "csetfailed"
-  /\ UNCHANGED <<np, acc, aid0, nfev, nevals, pend, seenNone, faultSeen, patience, stats, statFault>>
+  /\ nfev' = 0       \* a caller driven update ends the life of a fit result
+  /\ UNCHANGED <<np, acc, aid0, nevals, pend, seenNone, faultSeen, patience, stats, statFault>>
 \* keep = TRUE is the NAMED DEVIATION "cache kept although the evaluation failed" (stale values of
 \* the previous parameters stay exposed); property C09 forbids it
 CSetEval(ok, keep) ==
@@ -120,18 +121,22 @@ CSetEnd ==
   /\ UNCHANGED <<np, acc, tgt, own, aid0, nfev, nevals, pend, seenNone, faultSeen, patience, stats, statFault>>
 \* caller driven jacobian(): derivative calls in any order; ends with a marker
 CJacDeriv(k, ok) ==
-  /\ phase \in {"built", "cjac", "cjacfailed"}
+  /\ phase \in {"built", "done", "cjac", "cjacfailed"}
   /\ k \in AllIdx
   /\ phase' = IF ok /\ phase # "cjacfailed" THEN "cjac" ELSE "cjacfailed"
-  /\ pend' = IF phase = "built" THEN AllIdx \ {k} ELSE pend \ {k}
+  /\ pend' = IF phase \in {"built", "done"} THEN AllIdx \ {k} ELSE pend \ {k}
   /\ UNCHANGED <<np, acc, tgt, own, aid0, nfev, nevals, seenNone, faultSeen, patience, stats, statFault>>
+\* (the problem a fit handed back is an ordinary problem: after a query it still is a result, nfev > 0)
 CJacEnd ==
-  /\ phase \in {"built", "cjac", "cjacfailed"}
-  /\ phase' = "built"
+  /\ phase \in {"built", "done", "cjac", "cjacfailed"}
+  /\ phase' = IF nfev > 0 THEN "done" ELSE "built"
   /\ pend' = {}
   /\ UNCHANGED <<np, acc, tgt, own, aid0, nfev, nevals, seenNone, faultSeen, patience, stats, statFault>>
 \* the Jacobian a caller gets: present iff the cache is present and every derivative evaluated
 CJacPresent == own # -1 /\ phase = "cjac" /\ pend = {}
+\* ... and it IS produced whenever the cache is present and no derivative failed (np >= 1: then
+\* every derivative has been evaluated), whatever happened to the problem before
+CJacDue == own # -1 /\ phase # "cjacfailed"
 
 (* ---------------- the optimizer ---------------- *)
 \* startJac: does the optimizer obtain residuals at the start (and goes on to the Jacobian)?
